@@ -301,7 +301,7 @@ noval =
 '''
 PLURAL_ENTRIES = [G.msg('card'), G.msg('ord'), G.msg('both'), G.msg('cust'), G.msg('exact'), G.msg('nested'), G.msg('str'), G.msg('useterm'),
                   G.msg('miss'), G.msg('fn'), G.msg('selfn'), G.msg('noval', 'attr'), G.msg('noval'), G.msg('absent'), G.term('t'), G.msg('card', 'x')]
-LOCALES = [b'en', b'en-US', b'pl', b'ru', b'fr', b'ar', b'lt', b'cs', b'ja', b'xx']
+LOCALES = [b'en', b'en-US', b'pl', b'ru', b'fr', b'ar', b'lt', b'cs', b'ja', b'xx', b'pt-PT', b'pt', b'nn', b'eo', b'pt-PT']   # region-specific rules (pt-PT), cardinal-only languages (nn, eo)
 NUMS = [0, 1, 2, 3, 4, 5, 11, 12, 13, 21, 22, 23, 100, 101, 111]
 
 
